@@ -332,9 +332,11 @@ class AbstractMessageLogEntry(abc.ABC):
             val = str(val)
 
         try:
-            return self._apply_operator(operator, val, expected)
-        except (TypeError, AttributeError):
+            # `&` yields an int; MatchResult.result has to be a real bool or bool(MatchResult) raises
+            return bool(self._apply_operator(operator, val, expected))
+        except (TypeError, AttributeError, ValueError):
             # Operator can't be applied to a field of this type, so it doesn't match.
+            # (`300 in b"abc"` raises ValueError, not TypeError)
             return False
 
     @staticmethod
